@@ -88,7 +88,9 @@ def make_obs(ctx):
         four = ['AND(OR(L(0), L(1)), OR(L(2), L(3)))', 'OR(OR(L(0), L(1)), OR(L(2), L(3)))',
                 'AND(AND(L(0), L(1)), AND(L(2), L(3)))', 'AND(L(0), AND(L(1), AND(L(2), L(3))))',
                 'OR(AND(L(0), L(1)), AND(L(2), L(3)))', 'NOT(AND(OR(L(0), L(1)), OR(L(2), L(3))))',
-                'AND(OR(L(0), L(1)), AND(L(2), L(3)))', 'AND(L(0), OR(L(1), OR(L(2), L(3))))']
+                'AND(OR(L(0), L(1)), AND(L(2), L(3)))', 'AND(L(0), OR(L(1), OR(L(2), L(3))))',
+                'AND(AND(L(0), OR(L(1), L(2))), L(3))', 'AND(AND(OR(L(0), L(1)), L(2)), L(3))',
+                'AND(L(0), AND(OR(L(1), L(2)), L(3)))', 'AND(AND(L(0), L(1)), OR(L(2), L(3)))']
         trees += four
     else:
         import random
@@ -96,7 +98,9 @@ def make_obs(ctx):
         pick = ['AND(AND(L(0), L(1)), L(2))', 'AND(L(0), AND(L(1), L(2)))', 'AND(OR(L(0), L(1)), L(2))',
                 'AND(L(0), OR(L(1), L(2)))', 'NOT(AND(L(0), OR(L(1), L(2))))', 'OR(AND(L(0), L(1)), L(2))',
                 'OR(L(0), NOT(OR(L(1), L(2))))', 'AND(NOT(OR(L(0), L(1))), L(2))',
-                'AND(OR(L(0), L(1)), OR(L(2), L(3)))']
+                'AND(OR(L(0), L(1)), OR(L(2), L(3)))',
+                # a disjunction inside a chain of conjunctions (reported by a seeding sub-agent on the unchanged binary)
+                'AND(AND(L(0), OR(L(1), L(2))), L(3))', 'AND(AND(OR(L(0), L(1)), L(2)), L(3))']
         trees += pick + rnd.sample(three, 6)
     obs = []
     seen = set()
